@@ -683,6 +683,12 @@ func genVersions(rng *rand.Rand, n int) []verTuple {
 			out = append(out, verTuple{Version: s, Schema: sch, Pre: "x1", Meta: "m1", Release: "2", Epoch: "1"})
 		}
 	}
+	// coincidences between components: a prerelease equal to the release, explicit components that happen to end the
+	// verbatim version, verbatim versions containing a tilde
+	out = append(out, verTuple{Version: "1.2.3-1", Release: "1"}, verTuple{Version: "3.0.0-2", Release: "2"}, verTuple{Version: "1.2.3", Pre: "7", Release: "7"},
+		verTuple{Version: "1.2.1", Schema: "none", Pre: "1"}, verTuple{Version: "2024.5", Schema: "none", Meta: "5"}, verTuple{Version: "4.0b", Schema: "none", Pre: "b", Release: "1"},
+		verTuple{Version: "1.2.1", Schema: "none", Pre: "1", Meta: "1"}, verTuple{Version: "1.0.0~rc1", Schema: "none"}, verTuple{Version: "1.0.0~rc1"},
+		verTuple{Version: "1.2.3.4~git20240101", Release: "1"}, verTuple{Version: "2.0~beta+x", Schema: "none", Release: "3"})
 	return out
 }
 
@@ -853,7 +859,7 @@ func famParse(tr *Trace, id *int) int {
 		}
 	}
 	// (b) expansion of every string-valued leaf
-	raws := []struct{ raw, tag string }{{"pre-$VAR-post", "dollar"}, {"pre-${VAR}-post", "brace"}, {"plain value", "plain"}, {"  ${VAR}  ", "padded"}, {"${EMPTYV}", "vanish"}, {"$VAR$OTHER", "two"}}
+	raws := []struct{ raw, tag string }{{"pre-$VAR-post", "dollar"}, {"pre-${VAR}-post", "brace"}, {"plain value", "plain"}, {"  ${VAR}  ", "padded"}, {"${EMPTYV}", "vanish"}, {"$VAR$OTHER", "two"}, {"  padded plain  ", "paddedplain"}}
 	envs := []map[string]string{{"VAR": "val", "OTHER": "o2"}, {}, {"VAR": "  spaced  "}}
 	for _, k := range paths {
 		if k.Kind != "string" && k.Kind != "list" && k.Kind != "map" && k.Kind != "ptr" {
@@ -966,6 +972,28 @@ func famParse(tr *Trace, id *int) int {
 			ev["deb"], ev["rpm"], ev["apk"] = cfg.Deb.Signature.KeyPassphrase, cfg.RPM.Signature.KeyPassphrase, cfg.APK.Signature.KeyPassphrase
 		}
 		emit(ev)
+		// the same seen through the effective settings of each format, when the format's override block has a signature
+		// block of its own (another key file): the passphrase is the environment's all the same
+		doc := minimalDoc()
+		for _, f := range []string{"deb", "rpm", "apk"} {
+			setPath(doc, []string{f, "signature", "key_file"}, "/keys/base-"+f+".key", "")
+			setPath(doc, []string{"overrides", f, f, "signature", "key_file"}, "/keys/override-"+f+".key", "")
+		}
+		cfg2, _, err2 := parseDoc(doc, env)
+		ev2 := M{"ev": "pass", "env": envM(env), "deb": "", "rpm": "", "apk": "", "err": ""}
+		if err2 != nil {
+			ev2["err"] = safeStr(err2.Error())
+		} else {
+			for _, f := range []string{"deb", "rpm", "apk"} {
+				info, gerr := cfg2.Get(f)
+				if gerr != nil {
+					ev2["err"] = safeStr(gerr.Error())
+					break
+				}
+				ev2[f] = map[string]string{"deb": info.Deb.Signature.KeyPassphrase, "rpm": info.RPM.Signature.KeyPassphrase, "apk": info.APK.Signature.KeyPassphrase}[f]
+			}
+		}
+		emit(ev2)
 	}
 	return n
 }
